@@ -165,7 +165,7 @@ def body_origin(case, ctx):
         ctx.label("not-origin")
     if min(case["scales"], default=1.0) < 0:
         ctx.label("negative-representative")
-    T = Point(X.copy()).origin_to(**_fo_kwargs(case["fo"]))
+    T = handed_point(X).origin_to(**_fo_kwargs(case["fo"]))
     origin = Point.get_origin(n, shape) if case["origin_shape"] else Point.get_origin(n)
     img = T @ origin
     ctx.check(isinstance(img, Point), "image is a Point", got=type(img).__name__)
@@ -216,6 +216,14 @@ def body_tv_origin(case, ctx):
     ctx.small("tv.vector is Minkowski-orthogonal to the basepoint",
               mink(np.asarray(tv.vector, dtype=float), P) /
               (1e-9 * C_of(P) ** 2 * np.linalg.norm(V, axis=-1)), 1.0)
+
+
+def handed_point(X):
+    """a Point built from the caller's own array, which the caller overwrites afterwards"""
+    h = gen.Handed()
+    pt = Point(h.give(X))
+    h.scribble()
+    return pt
 
 
 def body_isometry_to(case, ctx):
@@ -388,8 +396,8 @@ def body_towards(case, ctx):
         ctx.label("close-pair")
     if np.any(s > 4):
         ctx.label("far-pair")
-    p = Point((P * sp[..., None]).copy())
-    q = Point((Qh * sq[..., None]).copy())
+    p = handed_point(P * sp[..., None])
+    q = handed_point(Qh * sq[..., None])
     tv = p.unit_tangent_towards(q)
     ctx.check(isinstance(tv, TangentVector) and tv.shape == shape,
               "unit_tangent_towards returns a TangentVector of the same shape",
@@ -482,7 +490,7 @@ def body_cosine(case, ctx):
     c = np.array(case["c"], dtype=float).reshape(shape)
     Q = I.exp_map(P, U1, b)
     R = I.exp_map(P, U2, c)
-    p, q, r = Point(P.copy()), Point(Q.copy()), Point(R.copy())
+    p, q, r = handed_point(P), handed_point(Q), handed_point(R)
     tq = p.unit_tangent_towards(q)
     tr = p.unit_tangent_towards(r)
     ang = np.asarray(tq.angle(tr), dtype=float)
